@@ -77,6 +77,13 @@ Fixpoint gall {S I E : Type} (step : S -> I -> S * option E) (g : S -> I -> bool
   | i :: l' => g s i && gall step g (fst (step s i)) l'
   end.
 
+(* number of leading steps whose guard holds (the run up to the first guard failure) *)
+Fixpoint gfit_len {St I E : Type} (step : St -> I -> St * option E) (g : St -> I -> bool) (s : St) (l : list I) : nat :=
+  match l with
+  | [] => O
+  | i :: l' => if g s i then Datatypes.S (gfit_len step g (fst (step s i)) l') else O
+  end.
+
 Fixpoint somes {E : Type} (l : list (option E)) : list E :=
   match l with
   | [] => []
@@ -110,16 +117,31 @@ Definition mem_guard (c : N) (o : mop) : bool :=
   end.
 Definition mem_fits (c : N) (ops : list mop) : bool := gall mem_step mem_guard c ops.
 
+Definition mem_fit_len (c : N) (ops : list mop) : nat := gfit_len mem_step mem_guard c ops.
+
+(* leader change: the old leader ran ops1; the new leader's sequencer is fresh
+   (counter 1), its first step is the heartbeat SetMax(k), then it runs ops2.
+   k is the largest key WRITTEN on the volume servers (store.go CollectHeartbeat:
+   MaxFileKey), not the largest key handed out. *)
+Definition relabel (m : nat) (e : ev) : ev :=
+  match e with Ret _ s c => Ret m s c | Max _ k => Max m k end.
+(* largest key of a range (0 for an empty range / a Max event) *)
+Definition ev_hi (e : ev) : N :=
+  match e with Ret _ s c => if c =? 0 then 0 else s + c - 1 | Max _ _ => 0 end.
+(* finding 4 trigger, per event of the old leader: it contains a key above k *)
+Definition fo_unwritten (k : N) (e : ev) : bool := k <? ev_hi e.
+Definition fo_trigger (tr1 : list ev) (k : N) : bool := existsb (fo_unwritten k) tr1.
+
 (* ------------------------------------------------------------------ *)
 (* 2. EtcdSequencer: per master (currentSeqId, maxSeqId, sequencer.dat) *)
 (*    + the shared etcd key /master/sequence.  Every KeysAPI call       *)
 (*    (Get / Set-with-PrevValue / Create) is one atomic step.           *)
-(*    Arithmetic is unbounded here (assumption: no uint64 wrap).        *)
+(*    Arithmetic is uint64 (w64) wherever the Go code adds/subtracts.   *)
 (* ------------------------------------------------------------------ *)
 Definition etcd_steps : N := 500.   (* DefaultEtcdSteps *)
 
-(* reqSteps := DefaultEtcdSteps; if count > DefaultEtcdSteps { reqSteps += count } *)
-Definition reqsteps (count : N) : N := if etcd_steps <? count then etcd_steps + count else etcd_steps.
+(* reqSteps := DefaultEtcdSteps; if count > DefaultEtcdSteps { reqSteps += count }   (uint64) *)
+Definition reqsteps (count : N) : N := if etcd_steps <? count then w64 (etcd_steps + count) else etcd_steps.
 
 Inductive why := Boot | Beat.   (* who runs setMaxSequenceToEtcd: NewEtcdSequencer / SetMax *)
 
@@ -184,8 +206,10 @@ Definition mstep (i : nat) (st : option N) (m : mst) (a : act) : option N * mst 
   | ANext count =>
       match p m with
       | Idle =>
-          if cur m + count <? mx m                             (* !((cur + count) >= max) *)
-          then (st, {| cur := cur m + count; mx := mx m; file := file m; p := Idle |}, Some (MRet i (cur m) count))
+          if w64 (cur m + count) <? mx m                       (* !((cur + count) >= max), uint64 addition *)
+          then (st, {| cur := w64 (cur m + count); mx := mx m; file := file m; p := Idle |}, Some (MRet i (cur m) count))
+          else if reqsteps count =? 0                          (* batchGetSequenceFromEtcd: step <= 0: error, no call *)
+          then (st, m, Some (MRetErr i count))
           else (st, set_pc m (NextGet count), None)
       | _ => (st, m, None)
       end
@@ -210,12 +234,14 @@ Definition mstep (i : nat) (st : option N) (m : mst) (a : act) : option N * mst 
           match f with
           | Ok =>
               if hit st prev
-              then (Some (prev + steps),
-                    {| cur := prev + count; mx := prev + steps; file := prev + steps; p := Idle |},
-                    Some (MRet i prev count))                  (* cur,max = maxId-steps,maxId; ret = cur; cur += count *)
+              then let maxid := w64 (prev + steps) in          (* endSeqValue = prevSeqValue + step *)
+                   let c0 := w64 (maxid + two64 - steps) in    (* maxId - reqSteps *)
+                   (Some maxid,
+                    {| cur := w64 (c0 + count); mx := maxid; file := maxid; p := Idle |},
+                    Some (MRet i c0 count))                    (* cur,max = maxId-steps,maxId; ret = cur; cur += count *)
               else (st, set_pc m (NextGet count), None)        (* compare failed: retry *)
           | Err => (st, set_pc m (NextGet count), None)
-          | ErrAfter => ((if hit st prev then Some (prev + steps) else st), set_pc m (NextGet count), None)
+          | ErrAfter => ((if hit st prev then Some (w64 (prev + steps)) else st), set_pc m (NextGet count), None)
           end
       | MaxGet w k =>
           match f, st with
@@ -260,11 +286,33 @@ Definition erun (s : est) (sched : list (nat * act)) : est * list (option mev) :
 
 Definition etcd_trace (n : nat) (sched : list (nat * act)) : list mev := somes (snd (erun (einit n) sched)).
 
+(* no uint64 operation of this step wraps (finding 3 is the complement) *)
+Definition mguard (m : mst) (a : act) : bool :=
+  match a with
+  | ANext count =>
+      match p m with
+      | Idle => (cur m + count <? two64) && (etcd_steps + count <? two64)
+      | _ => true
+      end
+  | ATick _ =>
+      match p m with
+      | NextSet count prev => (etcd_steps + count <? two64) && (prev + reqsteps count <? two64)
+      | _ => true
+      end
+  | _ => true
+  end.
+Definition eguard (s : est) (ia : nat * act) : bool := mguard (nth (fst ia) (masters s) mst0) (snd ia).
+Definition etcd_fits (n : nat) (sched : list (nat * act)) : bool := gall estep eguard (einit n) sched.
+(* the steps before the first one at which a uint64 operation wraps *)
+Definition etcd_fit_len (n : nat) (sched : list (nat * act)) : nat := gfit_len estep eguard (einit n) sched.
+
 (* triggers of the two etcd findings, evaluated on the model's run *)
 Definition is_reterr (e : mev) : bool := match e with MRetErr _ _ => true | _ => false end.
 Definition is_unsafe_max (e : mev) : bool := match e with MMax _ _ false => true | _ => false end.
 Definition etcd_err_trigger (tr : list mev) : bool := existsb is_reterr tr.
 Definition etcd_setmax_trigger (tr : list mev) : bool := existsb is_unsafe_max tr.
+(* per event: an event that carries neither tag *)
+Definition untagged (e : mev) : bool := negb (is_reterr e) && negb (is_unsafe_max e).
 
 (* ------------------------------------------------------------------ *)
 (* 3. SnowflakeSequencer (github.com/bwmarrin/snowflake Node.Generate)  *)
@@ -311,6 +359,8 @@ Fixpoint nodup_N (l : list N) : bool :=
   | x :: l' => negb (existsb (N.eqb x) l') && nodup_N l'
   end.
 Definition sf_nodes_ok (nids : list N) : bool := forallb (fun x => x <? 1024) nids && nodup_N nids.
+(* finding 5 trigger: two nodes (masters) with the same 10-bit id, hash(address) & 0x3ff *)
+Definition sf_collision_trigger (nids : list N) : bool := negb (nodup_N nids).
 
 (* the clock never runs backwards on a node, the spin reading is later than the
    stored time, and the time fits 41 bits *)
